@@ -885,6 +885,16 @@ func checkCommandOrder(c *Ctx, r *Report) {
 	}
 	cmds := fn.Params[1]
 	calls := staticCallsTo(fn, send)
+	if len(calls) == 1 {
+		// one loop over the whole slice: every element in slice order, hence the last one last
+		if u, ok := calls[0].Common().Args[1].(*ssa.UnOp); ok {
+			if ia, ok := u.X.(*ssa.IndexAddr); ok && ia.X == ssa.Value(cmds) && rangeHeader(ia.Index) != nil {
+				r.OK(rule, "all but the last command in slice order", c.Pos(fn.Pos()), "range over the whole slice")
+				r.OK(rule, "last command last", c.Pos(fn.Pos()), "range over the whole slice")
+				return
+			}
+		}
+	}
 	if len(calls) != 2 {
 		r.Unk(rule, "SendCommands shape", c.Pos(fn.Pos()), fmt.Sprintf("%d sendCommand call sites (loop + last expected)", len(calls)))
 		return
